@@ -828,7 +828,7 @@ static uint64_t run_roundtrip(const RTCase& k, Ctx& c)
       }
    }
    std::string path = wfile(mps ? ".mps" : ".lp");
-   unlink(path.c_str());
+   if(truncate(path.c_str(), 0) != 0) {}      // a stale file of an earlier case must never be read back (no unlink: keeps the file system quiet)
    try
    {
       bool ok;
@@ -1025,7 +1025,7 @@ static uint64_t run_dual(const TinyLP& lp, int fmt, int wzo, Ctx& c)
    quiet(A);
    load_real(A, lp, 0);
    std::string path = wfile(fmt ? ".mps" : ".lp");
-   unlink(path.c_str());
+   if(truncate(path.c_str(), 0) != 0) {}
    bool anyFree = false;
    for(int i = 0; i < model.m; ++i) anyFree |= row_is_free(model, i);
    try
@@ -1183,6 +1183,7 @@ int main(int argc, char** argv)
    Report rep(args, "exploration", thorough ? 5400 : 900);
    RunOpts o = rep.opts();
    o.perturb = {85};
+   o.watchdog_s = 300;      // a case is 1-64 file round trips (milliseconds); the margin is for a heavily loaded machine / file system
    std::string only = args.get("only");     // debugging aid: run only the phases whose name contains this text
    auto want = [&](const std::string & name) { return only.empty() || name.find(only) != std::string::npos; };
 
